@@ -14,7 +14,7 @@ Section GlobalMakes.
   Inductive gstepB : gstate -> gstate -> Prop :=
   | GStepB g a hint e :
       honest a = true -> msg_adm honest (gw g) e -> (e = EvBoot -> s_makes (g a) = []) ->
-      gstepB g (gupd g a (fst (fst (step c a true hint e (g a))))).
+      gstepB g (gupd g a (fst (fst (step c a src_dq hint e (g a))))).
   Inductive greachB : gstate -> Prop :=
   | greachB_init : greachB (fun _ => init c)
   | greachB_step g g' : greachB g -> gstepB g g' -> greachB g'.
